@@ -6,6 +6,7 @@
 //!   {"id":.., "mode":"macro",  "shape":"<name>", "behs":[..]}   (fresh process per case) real tracing macros on a Registry
 //!   {"id":.., "mode":"conc",   "root":.., "shape":"<name>", "behs":[..], "ops":[..], "bound_ms":N}   thread B runs the ops while thread A
 //!                                                  is parked inside `Handle::modify` of the shape's reload wrapper (baselines: nobody is)
+//! Any direct-mode case may carry "unwind_from": k — ops k.. then run inside a Drop impl while a panic propagates (caught by the harness).
 //! stdout: {"id":.., "build":[e..], "reg":[e..], "ops":[{"log":[e..],"res":r}..], "panic":null|"msg"}   e = [leaf, method, cs, id, id2]
 //!
 //! Leaves answer queries from their <beh> = {"int":[0|1|2 per callsite], "en":[bool..], "ev":[bool..], "hint":null|0..5,
@@ -348,6 +349,20 @@ impl Collect for RecCollector {
 
 // ------------------------------------------------------------------------------------------------ driving a stack
 
+thread_local! {
+    /// `"unwind_from": k` of the current case: ops k.. are executed inside a Drop impl while a panic propagates (caught at the top).
+    static UNWIND_FROM: std::cell::Cell<Option<usize>> = std::cell::Cell::new(None);
+    /// how many ops of the current case ran with `std::thread::panicking() == true`
+    static UNWOUND: std::cell::Cell<usize> = std::cell::Cell::new(0);
+}
+
+struct RunOnDrop<F: FnMut()>(F);
+impl<F: FnMut()> Drop for RunOnDrop<F> {
+    fn drop(&mut self) {
+        (self.0)()
+    }
+}
+
 struct Env {
     log: Log,
 }
@@ -399,7 +414,7 @@ fn drive<C: Collect + Send + Sync + 'static>(env: &Env, stack: C, ops: &[Value])
 /// `quiet_registry_traffic`: drop `max_level_hint` / `register_callsite` entries (in the concurrency leg another thread's
 /// `Handle::modify` ends with `rebuild_interest_cache`, which asks every dispatcher for its hint at an arbitrary moment).
 fn run_ops<C: Collect + Send + Sync + 'static>(env: &Env, d: &Dispatch, ops: &[Value], quiet_registry_traffic: bool) -> Vec<Value> {
-    let mut outs = Vec::new();
+    let outs: std::cell::RefCell<Vec<Value>> = std::cell::RefCell::new(Vec::new());
     let ids: std::cell::RefCell<Vec<u64>> = std::cell::RefCell::new(Vec::new());
     let real = |k: u64| -> span::Id {
         match ids.borrow().get((k as usize).wrapping_sub(1)) {
@@ -407,7 +422,10 @@ fn run_ops<C: Collect + Send + Sync + 'static>(env: &Env, d: &Dispatch, ops: &[V
             _ => span::Id::from_u64(k.max(1)),
         }
     };
-    for op in ops {
+    let exec = |op: &Value| {
+        if std::thread::panicking() {
+            UNWOUND.with(|c| c.set(c.get() + 1));
+        }
         let name = op[0].as_str().unwrap_or("");
         let n1 = op[1].as_u64().unwrap_or(0);
         let n2 = op[2].as_u64().unwrap_or(0);
@@ -466,9 +484,24 @@ fn run_ops<C: Collect + Send + Sync + 'static>(env: &Env, d: &Dispatch, ops: &[V
             es.retain(|e| e.m != "max_level_hint" && e.m != "register_callsite");
         }
         canon_entries(&ids.borrow(), &mut es);
-        outs.push(json!({"log": ent(&es), "res": res}));
+        outs.borrow_mut().push(json!({"log": ent(&es), "res": res}));
+    };
+    let k = UNWIND_FROM.with(|c| c.get()).unwrap_or(ops.len()).min(ops.len());
+    for op in &ops[..k] {
+        exec(op);
     }
-    outs
+    if k < ops.len() {
+        // the rest of the workload runs in a Drop impl while a panic propagates; the panic is caught right here
+        let _ = catch_unwind(AssertUnwindSafe(|| {
+            let _guard = RunOnDrop(|| {
+                for op in &ops[k..] {
+                    exec(op);
+                }
+            });
+            std::panic::resume_unwind(Box::new("unwinding segment"));
+        }));
+    }
+    outs.into_inner()
 }
 
 // ------------------------------------------------------------------------------------------------ the reload wrapper while another thread modifies
@@ -888,6 +921,8 @@ fn run_line(line: &str) -> Value {
     let empty = Vec::new();
     let ops = case["ops"].as_array().unwrap_or(&empty).clone();
     let behs: Vec<Arc<Beh>> = case["behs"].as_array().unwrap_or(&empty).iter().map(beh_of).collect();
+    UNWIND_FROM.with(|c| c.set(case["unwind_from"].as_u64().map(|k| k as usize)));
+    UNWOUND.with(|c| c.set(0));
     let r = catch_unwind(AssertUnwindSafe(|| {
         let env = Env::new();
         match case["mode"].as_str().unwrap_or("") {
@@ -922,6 +957,7 @@ fn run_line(line: &str) -> Value {
     match r {
         Ok(Some(mut v)) => {
             v["id"] = id;
+            v["unwound"] = json!(UNWOUND.with(|c| c.get()));
             v["panic"] = Value::Null;
             v
         }
